@@ -69,6 +69,8 @@ def generate(rng, tier, shard, nshards):
         for j in range(k):
             lat, lon, h = place(rng)
             kind = "ctor" if (j == 0 and i % 2 == 0) else ("none" if (j > 0 and rng.random() < 0.3) else "explicit")
+            if kind == "explicit" and j > 0 and rng.random() < 0.15:
+                kind = "omitted"        # the date argument left out altogether (not the same as date=None)
             qs.append({"kind": kind, "lat": lat, "lon": lon, "h": h, "date": draw_date(rng, bool(rng.random() < 0.4))})
             if j > 0 and i % 3 == 1 and rng.random() < 0.35:
                 # the object's public state methods called by hand between two queries (with a date of any epoch): the next dated query must not care
@@ -160,6 +162,19 @@ def check_history(case, ctx):
             if q["kind"] == "explicit":
                 out = call(lambda: w.magnetic_field(lat, lon, h, date=q["date"]))
                 cur_date = q["date"]
+            elif q["kind"] == "omitted":
+                out = call(lambda: w.magnetic_field(lat, lon, h))
+
+                def fresh_omitted():
+                    f = WMM(frame=frame)
+                    f.magnetic_field(lat, lon, h)
+                    return np.array([f.X, f.Y, f.Z], float), float(f.date_dec)
+                fr = call(fresh_omitted)
+                if out.ok and ctx.returned(fr, clause="no-exception[date omitted, fresh object]", route=route):
+                    cur_date = float(w.date_dec)
+                    ctx.le("a query that leaves the date out is answered as the same call on a fresh object is (whatever this object was asked before)",
+                           float(np.abs(np.array([w.X, w.Y, w.Z], float) - fr.value[0]).max()), 1e-9,
+                           {"query_index": j, "history": log[-6:], "date_here": float(w.date_dec), "date_fresh": fr.value[1]}, route=route)
             else:
                 out = call(lambda: w.magnetic_field(lat, lon, h, date=None))
             if not ctx.returned(out, route=route):
@@ -176,6 +191,8 @@ def check_history(case, ctx):
             continue
         exp = expected_xyz(lat, lon, h, cur_date, frame)
         got = np.array([el["X"], el["Y"], el["Z"]])
+        if cur_date is None:
+            continue
         mech = "after date=None query" if q["kind"] == "none" else ("constructor query" if q["kind"] == "ctor" else None)
         ctx.le("answer j of a query history equals the pure function of (date, place, frame)", float(np.abs(got - exp).max()), tol_for(lat),
                {"query_index": j, "history": log[-6:], "got": got, "expected": exp}, route=route, region=mech)
